@@ -289,11 +289,14 @@ class ChildrenList(list):
         :type item: :py:class:`psyclone.psyir.nodes.Node`
 
         '''
-        for position in range(self.index(item) + 1, len(self)):
-            self._validate_item(position - 1, self[position])
-        self._del_parent_link(item)
-        super().remove(item)
-        self._node_reference.update_signal()
+        # Node.__eq__ is structural, so the item to remove must be located
+        # by identity (list.index/remove would pick the first *equal* node).
+        for position, child in enumerate(self):
+            if child is item:
+                break
+        else:
+            raise ValueError("list.remove(x): x not in list")
+        del self[position]
 
     def pop(self, index=-1):
         ''' Extends list pop method with children node validation.
